@@ -154,7 +154,7 @@ def explore(run, widen=1):
         if got != want:
             run.fail("accept", inp, "%s is %sed, but %s" % (src, got, "every break/continue is inside a loop" if want == "accept" else "a break/continue is outside every loop"),
                      key="accept:" + got)
-        if got == "accept" and want == "accept" and has_bc:
+        if got == "accept" and want == "accept" and has_bc and run.dist.get("vm-timeouts", 0) < 25:
             exp = expected_value(t, nloops)
             try:
                 with implrun.quiet():
@@ -163,6 +163,7 @@ def explore(run, widen=1):
             except Exception as e:
                 r = ("crash", "%s:%s" % implrun.exc_site(e)[:2])
             run.count("vm-runs")
+            if r[0] == "timeout": run.count("vm-timeouts")      # after 25 non-terminating runs the VM leg stops (each costs the time limit)
             val = r[1] if r[0] == "ok" else "%s:%s" % (r[0], r[1])
             if val != exp:
                 run.fail("target", dict(skeleton=" ".join(toks(s)), source=src, expected=exp),
